@@ -64,6 +64,25 @@ def rand_ver(rng):
     return rng.choice(["", "", "v"]) + mk(core, pre, build)
 
 
+def rand_family(rng, k):
+    """k versions that share the core triple and a pre-release prefix and differ from one position on: precedence is then decided
+    by a single identifier comparison (or by list length), which is where the section 11 rules live"""
+    core = ".".join(str(rng.choice([0, 1, 2, 10, 2 ** 64 - 1, 2 ** 32])) for _ in range(3))
+    prefix = [fix_id(rand_id(rng)) for _ in range(rng.randint(0, 2))]
+    out = []
+    for _ in range(k):
+        r = rng.random()
+        if r < 0.08:
+            ids = list(prefix)                                    # the bare prefix (shorter list / the release itself when empty)
+        else:
+            ids = prefix + [fix_id(rand_id(rng))]
+            if rng.random() < 0.3:
+                ids += [fix_id(rand_id(rng)) for _ in range(rng.randint(1, 2))]
+        build = rng.choice([None, None, "b", "001"])
+        out.append(rng.choice(["", "", "v"]) + mk(core, ".".join(ids) if ids else None, build))
+    return out
+
+
 import re as _re
 _SV = _re.compile(r"^v?(0|[1-9][0-9]*)\.(0|[1-9][0-9]*)\.(0|[1-9][0-9]*)(?:-([0-9A-Za-z.-]+))?(?:\+([0-9A-Za-z.-]+))?$")
 KNOWN_BIG = "numeric-identifier>=2^64"
@@ -159,9 +178,14 @@ def run_check(tier, seed):
             b = a.split("+")[0] + rng.choice(["", "+zz", "+1"])
         cases.append(f"SVC {hx(a)} {hx(b)}")
     res = correspond(run, "random_pairs_incl_u64_boundary_numbers", cases, **kw)
+    cases = []
+    for _ in range(n):
+        a, b = rand_family(rng, 2)
+        cases.append(f"SVC {hx(a)} {hx(b)}")
+    correspond(run, "pairs_sharing_core_and_prerelease_prefix(one identifier decides)", cases, **kw)
 
     # antisymmetry / transitivity judged on the implementation's own answers (independent of the model)
-    triples = [(rand_ver(rng), rand_ver(rng), rand_ver(rng)) for _ in range(n // 5)]
+    triples = [(rand_ver(rng), rand_ver(rng), rand_ver(rng)) for _ in range(n // 10)] + [tuple(rand_family(rng, 3)) for _ in range(n // 5)]
     reqs = []
     for a, b, c in triples:
         reqs += [f"SVC {hx(a)} {hx(b)}", f"SVC {hx(b)} {hx(c)}", f"SVC {hx(a)} {hx(c)}", f"SVC {hx(b)} {hx(a)}"]
@@ -185,7 +209,7 @@ def run_check(tier, seed):
     cases = []
     for _ in range(n // 5):
         k = rng.randint(1, 6)
-        tags = [rand_ver(rng) for _ in range(k)]
+        tags = [rand_ver(rng) for _ in range(k)] if rng.random() < 0.5 else rand_family(rng, k)
         if rng.random() < 0.4:
             tags.append(tags[0].split("+")[0] + "+dup")
         rng.shuffle(tags)
